@@ -4,14 +4,17 @@ together with C20; the C19 check itself is owned by fam/membroker.py.)
 
 Mutation testing (FRAMEWORK.md rule 3, scratch worktrees /tmp/mapbroker-*, all removed): see MUTATIONS below.
 """
+import os
+
 from lib import vf
 
 SPEC = 'MapBroker'
+WORKERS = int(os.environ.get('VERIF_TLC_WORKERS') or 8)
 
 
 def _exhaustive(c, cfgs, timeout=1500):
     for cfg in cfgs:
-        r = c.tlc_exhaustive(SPEC, 'MapBroker', cfg, workers=8, timeout=timeout)
+        r = c.tlc_exhaustive(SPEC, 'MapBroker', cfg, workers=WORKERS, timeout=timeout)
         c.log('TLC exhaustive %s: %d distinct / %d generated states, depth %d, %.0f s'
               % (cfg, r['distinct'], r['states'], r['depth'], r['wall_s']))
 
@@ -137,7 +140,7 @@ def c20(c):
 
 def c21(c):
     quick = c.tier == 'quick'
-    r = c.tlc_exhaustive(SPEC, 'MapBrokerPages', 'pages.cfg' if quick else 'pages-thorough.cfg', workers=8, timeout=1500, dump=True)
+    r = c.tlc_exhaustive(SPEC, 'MapBrokerPages', 'pages.cfg' if quick else 'pages-thorough.cfg', workers=WORKERS, timeout=1500, dump=True)
     c.log('TLC pages table: %d states' % r['distinct'])
     states = c.dump_states(r)
     binp = c.go_build('mapbroker')
